@@ -830,6 +830,149 @@ func TestC12PopRace(t *testing.T) {
 	})
 }
 
+// ListEndsCase: one goroutine mutates one end of the story (only it pushes, or only it
+// removes) and looks at both ends of the list in between; the other goroutine does the
+// opposite mutation all the time.
+type ListEndsCase struct {
+	OnlyPusher bool `json:"onlypusher"` // the observer is the only pusher (else: the only remover)
+	Front      bool `json:"front"`      // pushes go through PushFront
+	Reset      bool `json:"reset"`      // the remover empties the list with Reset instead of Pop
+	Rounds     int  `json:"rounds"`
+}
+
+func genListEnds(t *rapid.T) ListEndsCase {
+	return ListEndsCase{
+		OnlyPusher: rapid.Bool().Draw(t, "onlypusher"),
+		Front:      rapid.Bool().Draw(t, "front"),
+		Reset:      rapid.IntRange(0, 3).Draw(t, "reset") == 0,
+		Rounds:     rapid.SampledFrom([]int{300, 2000, 8000}).Draw(t, "rounds"),
+	}
+}
+
+// runListEnds checks consequences of linearizability that need no search, on the one
+// transition where a list changes both of its ends: between empty and one element.
+// If only the observer pushes, then once it has seen IsEmpty() = true the list stays
+// empty until its own next push: Peek and PeekTail must find nothing. If only the
+// observer removes, then once it has seen an element at either end the list stays
+// non-empty until its own next removal: IsEmpty must be false and both ends must show
+// an element.
+func runListEnds(t *testing.T, cs ListEndsCase) *ev.Verdict {
+	v := &ev.Verdict{}
+	cj, _ := json.Marshal(cs)
+	v.Canon = string(cj)
+	sched.Guard(func() {
+		var l linkedlist.LinkedList[int]
+		var stop atomic.Bool
+		var msg string
+		push := func(x int) {
+			if cs.Front {
+				l.PushFront(x)
+			} else {
+				l.Push(x)
+			}
+		}
+		remove := func() {
+			if cs.Reset {
+				l.Reset()
+			} else {
+				l.Pop()
+			}
+		}
+		var wg sync.WaitGroup
+		wg.Add(1)
+		if cs.OnlyPusher {
+			go func() { // the remover
+				defer wg.Done()
+				for spin := 0; !stop.Load(); spin++ {
+					remove()
+					if spin&255 == 255 {
+						runtime.Gosched()
+					}
+				}
+			}()
+			for r := 1; r <= cs.Rounds && msg == ""; r++ {
+				push(r)
+				for spin := 0; msg == ""; spin++ {
+					if l.IsEmpty() {
+						// nobody else pushes: it stays empty until the next round
+						if x, ok := l.PeekTail(); ok {
+							msg = fmt.Sprintf("round %d: IsEmpty() = true, then PeekTail() = (%d, true) although nothing was pushed in between (the caller is the only pusher)", r, x)
+						} else if x, ok := l.Peek(); ok {
+							msg = fmt.Sprintf("round %d: IsEmpty() = true, then Peek() = (%d, true) although nothing was pushed in between (the caller is the only pusher)", r, x)
+						}
+						break
+					}
+					if spin&255 == 255 {
+						runtime.Gosched()
+					}
+				}
+			}
+		} else {
+			var pushed atomic.Int64
+			go func() { // the pusher: keeps at most one element in the list
+				defer wg.Done()
+				for x := 1; x <= cs.Rounds && !stop.Load(); x++ {
+					push(x)
+					pushed.Store(int64(x))
+					for spin := 0; !l.IsEmpty() && !stop.Load(); spin++ {
+						if spin&255 == 255 {
+							runtime.Gosched()
+						}
+					}
+				}
+			}()
+			for r := 1; r <= cs.Rounds && msg == ""; r++ {
+				// wait until either end shows the element, then look at the rest
+				for spin := 0; msg == ""; spin++ {
+					_, tailOK := l.PeekTail()
+					_, headOK := false, false
+					if !tailOK {
+						_, headOK = l.Peek()
+					}
+					if tailOK || headOK {
+						// nobody else removes: it stays non-empty until our own removal
+						if l.IsEmpty() {
+							msg = fmt.Sprintf("round %d: an end of the list showed an element, then IsEmpty() = true although nothing was removed in between (the caller is the only remover)", r)
+						} else if _, ok := l.Peek(); !ok {
+							msg = fmt.Sprintf("round %d: the list is not empty, yet Peek() found nothing although nothing was removed in between", r)
+						} else if _, ok := l.PeekTail(); !ok {
+							msg = fmt.Sprintf("round %d: the list is not empty, yet PeekTail() found nothing although nothing was removed in between", r)
+						}
+						break
+					}
+					if spin&255 == 255 {
+						runtime.Gosched()
+					}
+				}
+				if msg == "" {
+					if cs.Reset {
+						l.Reset()
+					} else if x, ok := l.Pop(); !ok || x != r {
+						msg = fmt.Sprintf("round %d: Pop() = (%d, %v), the only element in the list is %d", r, x, ok, r)
+					}
+				}
+			}
+		}
+		stop.Store(true)
+		wg.Wait()
+		if msg != "" {
+			v.Add(P, "list:ends-disagree", "%s", msg)
+		}
+	})
+	v.SetNT(P)
+	v.Class("list-empty-transition-observed-from-both-ends")
+	return v
+}
+
+func TestC12ListEnds(t *testing.T) {
+	ev.Drive(t, ev.Runner[ListEndsCase]{
+		Prop: P, ReplayRuns: 100,
+		Rule: "one LinkedList that oscillates between empty and one element for 300..8000 rounds: one goroutine is the only pusher (or the only remover) and looks at IsEmpty/Peek/PeekTail between its own mutations while the other goroutine removes (Pop or Reset) or pushes (Push or PushFront) all the time; oracle (consequences of linearizability that need no search): after the only pusher saw IsEmpty() = true neither end shows an element before its next push, after the only remover saw an element at one end IsEmpty() is false and both ends show an element before its next removal, and Pop returns the one element; non-trivial always; distinct by case",
+		Gen:  genListEnds,
+		Run:  runListEnds,
+	})
+}
+
 func TestC12Controlled(t *testing.T) {
 	ev.Drive(t, ev.Runner[Case]{
 		Prop: P,
